@@ -163,14 +163,21 @@ Print Assumptions T14d_illtyped_refuted.
    output attribute sets read off _calculate_stats on this run, given loads . dumps = id. *)
 Theorem T14e_pickle_roundtrip :
   forall (V Bytes : Type) (derive : list (option V) -> string -> option V)
+         (cleared_value : string -> option V)
          (dumps : obj V -> Bytes) (loads : Bytes -> obj V),
   (forall o a, loads (dumps o) a = o a) ->
   forall (raw : obj V) (n : V) (a : string),
-    let saved := results_of_raw stats_inputs stats_outputs derive raw in
+    let saved := results_of_raw stats_inputs stats_outputs derive stats_cleared cleared_value raw in
     let '(data', bytes) := write_pickle Bytes dumps pickle_name_attr saved n in
-    results_of_pickle stats_inputs stats_outputs derive Bytes loads bytes a = data' a.
+    results_of_pickle stats_inputs stats_outputs derive stats_cleared cleared_value Bytes loads bytes a = data' a.
 Proof. exact pickle_roundtrip_results. Qed.
 Print Assumptions T14e_pickle_roundtrip.
+
+(* what _clear_stats resets before the statistics are recomputed is derived only: attributes that
+   _calculate_stats assigns itself, never one of its inputs (generated lists) *)
+Theorem T14e_cleared_are_derived : forall a, In a stats_cleared -> In a stats_outputs /\ ~ In a stats_inputs.
+Proof. exact cleared_are_outputs. Qed.
+Print Assumptions T14e_cleared_are_derived.
 
 (* non-vacuity: an identity pickle, a statistic computed from an input *)
 Example T14e_example :
@@ -180,9 +187,10 @@ Example T14e_example :
                        | Some x => x | None => None end     (* the only input present, wherever it is listed *)
                   else None in
   let raw : obj nat := fun a => if String.eqb a "logLike" then Some 7%nat else None in
-  let saved := results_of_raw stats_inputs stats_outputs derive raw in
+  let cleared_value := fun _ : string => @None nat in
+  let saved := results_of_raw stats_inputs stats_outputs derive stats_cleared cleared_value raw in
   let '(data', bytes) := write_pickle (obj nat) (fun o => o) pickle_name_attr saved 0%nat in
-  results_of_pickle stats_inputs stats_outputs derive (obj nat) (fun b => b) bytes "akaike"%string = Some 7%nat.
+  results_of_pickle stats_inputs stats_outputs derive stats_cleared cleared_value (obj nat) (fun b => b) bytes "akaike"%string = Some 7%nat.
 Proof. vm_compute. reflexivity. Qed.
 
 (* T14f. every report has one row per estimated parameter (names pairwise distinct), in order,
